@@ -91,7 +91,13 @@ impl Operation {
             Add => a.add_mod(b, M),
             Sub => a.add_mod(M - b, M),
             Pow => a.pow_mod(b, M),
-            Mod => a.div_rem(b).1,
+            Mod => {
+                if b == U256::ZERO {
+                    U256::ZERO
+                } else {
+                    a.div_rem(b).1
+                }
+            }
             Eq => U256::from(a == b),
             Neq => U256::from(a != b),
             Lt => u_lt(&a, &b),
@@ -104,12 +110,18 @@ impl Operation {
             Shr => compute_shr_uint(a, b),
             // TODO test with conner case when it is possible to get the number
             //      bigger then modulus
-            Bor => a.bitor(b),
+            Bor => reduce_uint(a.bitor(b)),
             Band => a.bitand(b),
             // TODO test with conner case when it is possible to get the number
             //      bigger then modulus
-            Bxor => a.bitxor(b),
-            Idiv => a / b,
+            Bxor => reduce_uint(a.bitxor(b)),
+            Idiv => {
+                if b == U256::ZERO {
+                    U256::ZERO
+                } else {
+                    a / b
+                }
+            }
         }
     }
 
@@ -383,16 +395,43 @@ impl std::fmt::Display for NodeConstErr {
 
 impl Error for NodeConstErr {}
 
-fn compute_shl_uint(a: U256, b: U256) -> U256 {
-    debug_assert!(b.lt(&U256::from(256)));
-    let ls_limb = b.as_limbs()[0];
-    a.shl(ls_limb as usize)
+/// Mask of the significant bits of the field modulus (2^254 - 1).
+const MASK: U256 = U256::from_limbs([u64::MAX, u64::MAX, u64::MAX, u64::MAX >> 2]);
+
+/// Reduces a value below 2 * M into the canonical range [0, M).
+fn reduce_uint(x: U256) -> U256 {
+    if x >= M {
+        x - M
+    } else {
+        x
+    }
 }
 
+/// Returns the shift count if it is smaller than the bit size of the field.
+fn small_shift(b: U256) -> Option<usize> {
+    if b.lt(&U256::from(Fr::MODULUS_BIT_SIZE)) {
+        Some(b.as_limbs()[0] as usize)
+    } else {
+        None
+    }
+}
+
+// x << k = (x * 2^k & mask) % p for k <= p/2, and x >> (p - k) for larger k
+fn compute_shl_uint(a: U256, b: U256) -> U256 {
+    match (small_shift(b), small_shift(M.wrapping_sub(b))) {
+        (Some(n), _) => reduce_uint(a.shl(n) & MASK),
+        (None, Some(n)) => a.shr(n),
+        (None, None) => U256::ZERO,
+    }
+}
+
+// x >> k = x / 2^k for k <= p/2, and x << (p - k) for larger k
 fn compute_shr_uint(a: U256, b: U256) -> U256 {
-    debug_assert!(b.lt(&U256::from(256)));
-    let ls_limb = b.as_limbs()[0];
-    a.shr(ls_limb as usize)
+    match (small_shift(b), small_shift(M.wrapping_sub(b))) {
+        (Some(n), _) => a.shr(n),
+        (None, Some(n)) => reduce_uint(a.shl(n) & MASK),
+        (None, None) => U256::ZERO,
+    }
 }
 
 /// All references must be backwards.
@@ -667,12 +706,22 @@ fn shl(a: Fr, b: Fr) -> Fr {
     }
 
     if b.cmp(&Fr::from(Fr::MODULUS_BIT_SIZE)).is_ge() {
-        return Fr::zero();
+        // a shift count above p/2 shifts in the opposite direction by p - b
+        let nb = -b;
+        if nb.cmp(&Fr::from(Fr::MODULUS_BIT_SIZE)).is_ge() {
+            return Fr::zero();
+        }
+        return shr(a, nb);
     }
 
     let n = b.into_bigint().0[0] as u32;
-    let a = a.into_bigint();
-    Fr::from_bigint(a << n).unwrap()
+    // keep the low 254 bits of the shifted value and reduce it modulo p
+    let mut res = a.into_bigint() << n;
+    res.0[3] &= u64::MAX >> 2;
+    if res >= Fr::MODULUS {
+        res.sub_with_borrow(&Fr::MODULUS);
+    }
+    Fr::from_bigint(res).unwrap()
 }
 
 fn shr(a: Fr, b: Fr) -> Fr {
@@ -680,11 +729,14 @@ fn shr(a: Fr, b: Fr) -> Fr {
         return a;
     }
 
-    match b.cmp(&Fr::from(254u64)) {
-        Ordering::Equal => return Fr::zero(),
-        Ordering::Greater => return Fr::zero(),
-        _ => (),
-    };
+    if b.cmp(&Fr::from(254u64)).is_ge() {
+        // a shift count above p/2 shifts in the opposite direction by p - b
+        let nb = -b;
+        if nb.cmp(&Fr::from(254u64)).is_ge() {
+            return Fr::zero();
+        }
+        return shl(a, nb);
+    }
 
     let mut n = b.into_bigint().to_bytes_le()[0];
     let mut result = a.into_bigint();
@@ -722,7 +774,7 @@ fn bit_and(a: Fr, b: Fr) -> Fr {
         a.0[3] & b.0[3],
     ];
     let mut d: BigInt<4> = BigInt::new(c);
-    if d > Fr::MODULUS {
+    if d >= Fr::MODULUS {
         d.sub_with_borrow(&Fr::MODULUS);
     }
 
@@ -739,7 +791,7 @@ fn bit_or(a: Fr, b: Fr) -> Fr {
         a.0[3] | b.0[3],
     ];
     let mut d: BigInt<4> = BigInt::new(c);
-    if d > Fr::MODULUS {
+    if d >= Fr::MODULUS {
         d.sub_with_borrow(&Fr::MODULUS);
     }
 
@@ -756,7 +808,7 @@ fn bit_xor(a: Fr, b: Fr) -> Fr {
         a.0[3] ^ b.0[3],
     ];
     let mut d: BigInt<4> = BigInt::new(c);
-    if d > Fr::MODULUS {
+    if d >= Fr::MODULUS {
         d.sub_with_borrow(&Fr::MODULUS);
     }
 
